@@ -77,7 +77,7 @@ def main(tier, replay):
         jobs.append({'name': 'file|%s|%s' % (n, canon[n]), 'pkg': 'scratch/' + n, 'func': 'HarnessFile',
                      'args': [0, 2, -1, 1, 1, len(n) % 3, 1, 0, 0] if wide else [1, 1, -1, 1, 1, len(n) % 3, 1, 0, 0], 'opt': {'stub': stub, 'mode_b': True}})
     jobs.append({'name': 'sens-striping', 'pkg': 'scratch/flat_int32', 'func': 'HarnessShred', 'args': [1, 0, 0, 1, 1, 0, 3, 1], 'expect': 'striping', 'opt': {}})
-    out = run_program_jobs(c, mod, infos, jobs, native_templates=NATIVE)
+    out = run_program_jobs_batched(c, mod, infos, jobs, batch=250, native_templates=NATIVE)
     c.inconclusive = [r for r in c.inconclusive if not re.search(r'job (shred|file)\|', r)]
     load_err = out.get('load_errors') or {}
     for n in P:
